@@ -5,25 +5,36 @@ from common import *
 
 ID = 'C16'
 COQ_FILES = ['Base/Mat.v', 'Base/ListX.v', 'Model/Components.v', 'Proofs/Components.v', 'Proofs/ComponentsDistance.v',
-             'Properties/C16.v']
+             'Proofs/ComponentsDistanceFull.v', 'Properties/C16.v']
 THEOREMS = ['C16_fold_invariant', 'C16_components_iff_path', 'C16_labels_1_to_m', 'C16_sizes_are_counts',
             'C16_isolated_singletons', 'C16_asym_rejected', 'C16_number_of_components_def',
-            'C16_number_is_class_count', 'C16_agrees_with_distance', 'C16_agrees_with_distance_bin']
-RULE = ('every labelled undirected graph on n<=5 nodes (n<=6 thorough) + random structured graphs n=1..14: forests, '
+            'C16_number_is_class_count', 'C16_agrees_with_distance_bin', 'C16_agrees_with_reachdist',
+            'C16_agrees_with_breadthdist', 'C16_reach_breadth_diag']
+RULE = ('every labelled undirected graph on n<=5 nodes (n<=6 thorough) + the empty 0x0 matrix + random structured graphs '
+        'n=1..14 (one in eight: n=15..40, so that more than 14 components / labels occur): forests, '
         'stars with the hub numbered first/last, matchings joined by late connector edges, interleaved cliques, '
         'paths/caterpillars/binary trees under random and reversed numberings, Erdos-Renyi at several densities, '
-        'empty and complete graphs; each as binary / signed integer weights / dyadic float weights, with zero / random / '
-        'all-ones diagonals and float/int/bool dtypes; plus a malformed stream (directed graphs, one flipped entry, '
-        'unequal mirrored weights) for the rejection clause. non-trivial = at least one off-diagonal connection '
+        'empty and complete graphs, disjoint even cycles / K_{2,3} blocks, grids; each as binary / signed integer weights / '
+        '+-1, +-{1,2}, +-1/2 weights (walk products that cancel) / dyadic float weights, with zero / random / '
+        'all-ones diagonals and float/int/bool dtypes; plus a malformed stream for the rejection clause: directed graphs, '
+        'one flipped entry, unequal mirrored weights, +w/-w sign asymmetry (float, int and bool dtype), and NOISE-LEVEL '
+        'asymmetries of one mirrored pair (absolute 2^-40, 1e-9; relative 1e-7, one ulp) that np.allclose would accept but the '
+        'code (and the property) rejects; plus a signed stream (+-1 weights on even cycles, grids, ER, complete graphs, the 4-cycle +,+,+,-) and '
+        'chains of 40..70 nodes with weights 1e-6 / 2^-30 (products underflow) for the agreement-with-distance clause. non-trivial = at least one off-diagonal connection '
         '(at least one merge of two blocks happens); distinct by hash of the matrix')
 ASSUMES = ['weights enter the code only through `A == A.T` and `!= 0`, so the model carries them as integers '
-           '(dyadic float weights are multiplied by 8 before they are handed to the model)',
+           '(every generated float is a dyadic rational; the whole matrix is multiplied by the common power-of-two denominator, '
+           'which preserves equality and non-zeroness exactly, before it is handed to the model)',
            'a python set is modelled as a duplicate-free list: the code only uses isdisjoint/union/in/len on them, '
-           'so the (unspecified) iteration order of a set cannot influence the result; labels are therefore compared EXACTLY']
-TRUSTED = ['C16_agrees_with_distance_bin composes the C16 theorems with C03\'s distance_bin_inf_iff (imports Model/Distance.v, '
-           'Proofs/DistanceBase.v, Proofs/DistanceBin.v of property C03; that the distance_bin MODEL is the code is C03\'s correspondence); '
-           'for breadthdist/reachdist the premise of C16_agrees_with_distance (finite distance <=> joined by a path) is not proved '
-           '(C03 has only the soundness half); the agreement of all three routines is checked directly on the implementation by the harness']
+           'so the (unspecified) iteration order of a set cannot influence the result; labels are therefore compared EXACTLY',
+           'NaN / inf entries are outside the domain (the code rejects a symmetric matrix containing NaN since NaN != NaN); not generated',
+           'get_components_old (exported, not named by the property text nor by its anchors) is not covered: in this environment it raises '
+           'TypeError on every non-empty input (np.zeros(np.max(cptvec)) with a float size), with and without networkx; the run records that '
+           'under distribution key get_components_old:* without judging it']
+TRUSTED = ['C16_agrees_with_distance_bin / _reachdist / _breadthdist / C16_reach_breadth_diag compose the C16 theorems with property C03\'s '
+           'theorems about the MODELS of distance_bin, reachdist and breadthdist (Model/Distance.v; Proofs/DistanceBin.v, DistanceFull.v, '
+           'DistanceBFS.v, DistanceAgree.v are only Required): totality + exact correctness. That those models are the code is C03\'s '
+           'correspondence; in addition the agreement of all three routines with the components is checked directly on the implementation here']
 
 
 # ---------------------------------------------------------------- independent oracle
@@ -122,11 +133,39 @@ def g_chains_joined_last(r, n):
     return E
 
 
+def g_even_cycles(r, n):
+    """disjoint 4-/6-cycles and K_{2,m} blocks: with signed weights the two (or m) 2-step walks between opposite nodes
+    cancel in a walk-COUNTING product that forgot to binarize (distance_bin's nPATH)"""
+    E, v = [], 0
+    while v + 4 <= n:
+        k = int(r.choice([4, 4, 6, 5]))
+        if v + k > n:
+            k = 4
+        if k == 5:          # K_{2,3}: hubs v, v+1; leaves v+2..v+4
+            E += [(v + h, v + l) for h in (0, 1) for l in (2, 3, 4)]
+        else:
+            E += [(v + i, v + (i + 1) % k) for i in range(k)]
+        v += k + int(r.randint(0, 2))
+    return E
+
+
+def g_grid(r, n):
+    w = max(2, int(round(n ** 0.5)))
+    E = []
+    for v in range(n):
+        if (v + 1) % w and v + 1 < n and r.rand() < 0.9:
+            E.append((v, v + 1))
+        if v + w < n and r.rand() < 0.9:
+            E.append((v, v + w))
+    return E
+
+
 FAMILIES = [('forest', g_forest), ('star_hub_first', lambda r, n: g_star(r, n, 0)),
             ('star_hub_last', lambda r, n: g_star(r, n, n - 1)), ('matching_late', g_matching_late),
             ('cliques_interleaved', g_cliques_interleaved), ('path', g_path), ('caterpillar', g_caterpillar),
             ('bintree', g_bintree), ('er', g_er), ('chains_joined_last', g_chains_joined_last),
-            ('empty', lambda r, n: []), ('complete', lambda r, n: [(i, j) for i in range(n) for j in range(i + 1, n)])]
+            ('empty', lambda r, n: []), ('complete', lambda r, n: [(i, j) for i in range(n) for j in range(i + 1, n)]),
+            ('even_cycles', g_even_cycles), ('grid', g_grid)]
 
 
 def renumber(r, n, E, how):
@@ -148,6 +187,14 @@ def build(r, n, E, wkind, dkind):
             w = Fraction(1)
         elif wkind == 'int':
             w = Fraction(int(r.choice([-3, -2, -1, 1, 2, 3, 4, 5])))
+        elif wkind == 'pm1':
+            w = Fraction(int(r.choice([-1, 1])))
+        elif wkind == 'pm_small':
+            w = Fraction(int(r.choice([-2, -1, 1, 2])))
+        elif wkind == 'pm_half':
+            w = Fraction(int(r.choice([-1, 1])), 2)
+        elif wkind == 'tiny':
+            w = Fraction(float(r.choice([1e-6, 2.0 ** -30])))
         else:
             w = Fraction(int(r.choice([-12, -3, -1, 1, 2, 4, 5, 18, 21])), 8)
         W[a][b] = W[b][a] = w
@@ -169,7 +216,20 @@ def to_np(W, dtype):
 
 
 def model_rows(W):
-    return [[int(x * 8) for x in row] for row in W]
+    """integers for the model: the matrix times the common (power-of-two) denominator, at least 8"""
+    den = 8
+    for row in W:
+        for x in row:
+            if x.denominator > den:
+                den = x.denominator
+    return [[int(x * den) for x in row] for row in W]
+
+
+def enc_zbig(x):
+    x = int(x)
+    if abs(x) < 2 ** 60:
+        return str(x)
+    return ('-' if x < 0 else '') + '0b' + bin(abs(x))[2:]
 
 
 # ---------------------------------------------------------------- one case
@@ -178,6 +238,8 @@ def one_case(ctx, bct, W, dtype, fam, lines, pend, malformed=False, with_dist=Tr
     A = to_np(W, dtype)
     if dtype == 'bool':
         W = [[Fraction(int(x != 0)) for x in row] for row in W]
+    elif dtype == 'int':
+        W = [[Fraction(int(x)) for x in row] for row in W]
     case = {'fn': 'get_components', 'family': fam, 'dtype': dtype, 'A': [[str(x) for x in row] for row in W]}
     offdiag = any(W[i][j] != 0 for i in range(n) for j in range(n) if i != j)
     ctx.case(case, nontrivial=offdiag, sample_every=997)
@@ -205,6 +267,14 @@ def one_case(ctx, bct, W, dtype, fam, lines, pend, malformed=False, with_dist=Tr
     elif err or nerr:
         ctx.fail('get_components:raises' if err else 'number_of_components:raises', 'symmetric input raised ' + str(err or nerr), case)
     else:
+        # what is returned: two 1-D integer arrays (labels index arrays downstream: nbs.py:181-190), a python/NumPy integer count.
+        # (n = 0: np.array([]) has no integer to infer a dtype from; nothing to check there)
+        rt = (isinstance(comps, np.ndarray) and isinstance(sz, np.ndarray) and comps.shape == (n,) and sz.ndim == 1
+              and (n == 0 or (comps.dtype.kind in 'iu' and sz.dtype.kind in 'iu' and comps.dtype.itemsize >= 4 and int(sz.sum()) == n)))
+        ctx.check(rt, 'get_components:return_type', 'expected integer arrays of shapes (n,), (m,) with sizes summing to n; got %s %s / %s %s'
+                  % (getattr(comps, 'dtype', type(comps)), getattr(comps, 'shape', None), getattr(sz, 'dtype', type(sz)), getattr(sz, 'shape', None)), case)
+        ctx.check(isinstance(noc, (int, np.integer)) and not isinstance(noc, bool), 'number_of_components:return_type',
+                  'expected an integer, got %r' % type(noc), case)
         comps = [int(x) for x in np.asarray(comps).tolist()]
         sz = [int(x) for x in np.asarray(sz).tolist()]
         cls, c = bfs_classes(W)
@@ -244,8 +314,8 @@ def one_case(ctx, bct, W, dtype, fam, lines, pend, malformed=False, with_dist=Tr
             except Timeout:
                 ctx.fail('distance:timeout', 'a distance routine did not terminate', case)
     rows = model_rows(W)
-    lines.append('gc ' + enc_mat(rows)); pend.append(('gc', case, (comps, sz), err))
-    lines.append('noc ' + enc_mat(rows)); pend.append(('noc', case, noc, nerr))
+    lines.append('gc ' + enc_mat(rows, enc_zbig)); pend.append(('gc', case, (comps, sz), err))
+    lines.append('noc ' + enc_mat(rows, enc_zbig)); pend.append(('noc', case, noc, nerr))
 
 
 def run(ctx):
@@ -262,36 +332,95 @@ def run(ctx):
             for a, b in E:
                 W[a][b] = W[b][a] = Fraction(1)
             one_case(ctx, bct, W, 'float', 'exhaustive_n%d' % n, lines, pend, with_dist=(n <= 5 or mask % 8 == 0))
+    # ---------------- the empty network
+    for dt in ('float', 'int', 'bool'):
+        one_case(ctx, bct, [], dt, 'n0', lines, pend, with_dist=False)
+    # get_components_old: exported but not named by the property (see ASSUMES) - recorded, not judged
+    try:
+        call(bct.get_components_old, np.array([[0, 1, 0], [1, 0, 0], [0, 0, 0.]]), True)
+        ctx.count('get_components_old:returns')
+    except Exception as e:
+        ctx.count('get_components_old:raises_' + type(e).__name__)
     # ---------------- structured random
     N = ctx.scale(360, 4000)
     for t in range(N):
         fam, g = FAMILIES[t % len(FAMILIES)]
-        n = int(r.randint(1, 15))
+        n = int(r.randint(15, 41)) if t % 8 == 7 else int(r.randint(1, 15))
         E = g(r, n)
         E = renumber(r, n, E, ['id', 'rev', 'perm', 'perm'][int(r.randint(0, 4))])
-        wkind = ['bin', 'int', 'dyadic'][int(r.randint(0, 3))]
+        wkind = ['bin', 'int', 'dyadic', 'pm1', 'pm_small', 'pm_half'][int(r.randint(0, 6))]
         dkind = ['zero', 'rand', 'ones'][int(r.randint(0, 3))]
         W = build(r, n, E, wkind, dkind)
-        dtype = 'float' if wkind == 'dyadic' else ['float', 'int', 'bool'][int(r.randint(0, 3))]
+        dtype = 'float' if wkind in ('dyadic', 'pm_half') else ['float', 'int', 'bool'][int(r.randint(0, 3))]
         ctx.count('weights:' + wkind); ctx.count('diag:' + dkind)
         one_case(ctx, bct, W, dtype, fam, lines, pend)
+    # ---------------- signed weights whose walks cancel / tiny weights whose products underflow: the grouping must still agree
+    # with the finite entries of distance_bin, breadthdist, reachdist (they binarize first; the model side only sees the support)
+    S = ctx.scale(72, 720)
+    for t in range(S):
+        fam, g = [('even_cycles', g_even_cycles), ('grid', g_grid), ('er', g_er), ('complete', FAMILIES[11][1])][t % 4]
+        n = int(r.randint(4, 15))
+        E = renumber(r, n, g(r, n), ['id', 'perm'][int(r.randint(0, 2))])
+        wkind = ['pm1', 'pm1', 'pm_small', 'pm_half'][int(r.randint(0, 4))]
+        W = build(r, n, E, wkind, 'zero')
+        ctx.count('weights:' + wkind); ctx.count('signed_cancel')
+        one_case(ctx, bct, W, 'float' if wkind == 'pm_half' else ['float', 'int'][int(r.randint(0, 2))], 'signed_' + fam, lines, pend)
+    # the 4-cycle (+,+,+,-) itself
+    W4 = [[Fraction(0)] * 4 for _ in range(4)]
+    for (i, j, w) in ((0, 1, 1), (1, 2, 1), (2, 3, 1), (3, 0, -1)):
+        W4[i][j] = W4[j][i] = Fraction(w)
+    one_case(ctx, bct, W4, 'float', 'signed_square', lines, pend)
+    for t in range(ctx.scale(4, 24)):
+        n = int(r.randint(40, 71)) if t % 2 else int(r.randint(58, 71))
+        E = [(i, i + 1) for i in range(n - 1) if r.rand() < 0.97]
+        if t % 4 == 3:
+            E = renumber(r, n, E, 'rev')
+        W = build(r, n, E, 'tiny', 'zero')
+        if t % 2 == 0:
+            for a, b in E:
+                W[a][b] = W[b][a] = Fraction(1e-6)      # 55+ factors of 1e-6 underflow to 0.0
+        ctx.count('weights:tiny'); ctx.count('long_chain')
+        one_case(ctx, bct, W, 'float', 'long_chain_tiny', lines, pend)
     # ---------------- malformed stream: asymmetric input must be rejected
-    M = ctx.scale(80, 800)
+    M = ctx.scale(120, 1200)
     for t in range(M):
         n = int(r.randint(2, 10))
-        kind = t % 3
+        kind = t % 6
         fam, g = FAMILIES[int(r.randint(0, len(FAMILIES)))]
         W = build(r, n, renumber(r, n, g(r, n), 'perm'), ['bin', 'int', 'dyadic'][int(r.randint(0, 3))], ['zero', 'rand'][int(r.randint(0, 2))])
         i, j = [int(x) for x in r.choice(n, 2, replace=False)]
+        dtype = 'float'
         if kind == 0:      # one entry flipped
             W[i][j] = Fraction(0) if W[i][j] != 0 else Fraction(1)
+            dtype = ['float', 'int', 'bool'][int(r.randint(0, 3))]
         elif kind == 1:    # both directions present, weights differ
             W[i][j] = Fraction(2); W[j][i] = Fraction(3)
-        else:              # random directed graph
+            dtype = ['float', 'int'][int(r.randint(0, 2))]
+        elif kind == 2:    # random directed graph
             W = [[Fraction(int(a != b and r.rand() < 0.3)) for b in range(n)] for a in range(n)]
             if all(W[a][b] == W[b][a] for a in range(n) for b in range(n)):
                 W[i][j] = Fraction(1); W[j][i] = Fraction(0)
-        one_case(ctx, bct, W, 'float', 'malformed_%d' % kind, lines, pend, malformed=True)
+            dtype = ['float', 'int', 'bool'][int(r.randint(0, 3))]
+        elif kind == 3:    # same magnitude, opposite sign
+            w = Fraction(int(r.choice([1, 2, 3, 5])))
+            W[i][j] = w; W[j][i] = -w
+            dtype = ['float', 'int'][int(r.randint(0, 2))]
+        else:              # noise-level asymmetry of one mirrored pair (np.allclose(A, A.T) holds, A == A.T does not)
+            w = float(W[i][j]) if W[i][j] != 0 else float(r.choice([1.0, 0.375, 2.5, -1.5]))
+            sub = int(r.randint(0, 5))
+            if sub == 0:
+                w2 = w + 2.0 ** -40
+            elif sub == 1:
+                w2 = w + 1e-9
+            elif sub == 2:
+                w2 = w * (1 + 1e-7)
+            elif sub == 3:
+                w2 = float(np.nextafter(w, np.inf))     # one ulp
+            else:
+                w, w2 = 0.0, 1e-9                         # a "connection" of noise size in one direction only
+            W[i][j] = Fraction(w2); W[j][i] = Fraction(w)
+            ctx.count('malformed:noise_%d' % sub)
+        one_case(ctx, bct, W, dtype, 'malformed_%d' % min(kind, 4), lines, pend, malformed=True)
 
     # ---------------- correspondence: extracted Coq model on the same inputs, labels compared exactly
     res = run_model(ID, lines)
